@@ -112,7 +112,7 @@ class CompGen:
 
 def pyvalue(text, data_event):
     try:
-        return ("ok", norm(eval(text, {"__builtins__": {"len": len}})(data_event)))
+        return ("ok", norm(eval(text, {"__builtins__": {"len": len}, "j": 5, "t": 7, "k": 9})(data_event)))
     except Exception as e:
         return ("pyerr", f"{type(e).__name__}: {e}")
 
@@ -191,8 +191,21 @@ def comp_cases(ctx, rnd, n):
             ctx.violation(f"exc:{type(e).__name__}:Select", f"{text}: {type(e).__name__}: {str(e)[:160]}", {"lambda": text, "how": "Select(string)"})
         if i % 4 == 0:
             batch.append((text, set(g.feats)))
-    # callable supply from a generated file
-    src = modgen.DS_HEADER + "".join(f"def c{i}(ds):\n    return ds.Select({t})\n" for i, (t, _) in enumerate(batch))
+    # callable supply from a generated file; the module also has globals named like comprehension targets, used outside
+    # the comprehension (captured) while the same names inside it are the loop variables
+    GLOB = {"j": 5, "t": 7, "k": 9}
+    batch2 = []
+    for t, feats in batch:
+        if rnd.random() < 0.5:
+            g = rnd.choice(sorted(GLOB))
+            p = t.split(":")[0].replace("lambda", "").strip()
+            if p != g:
+                body = t.split(":", 1)[1].strip()
+                t = f"lambda {p}: ({body}, {g} + 1)" if rnd.random() < 0.5 else f"lambda {p}: ({g} * 2, {body})"
+                feats = set(feats) | {"captured-global-named-like-a-target"}
+        batch2.append((t, feats))
+    batch = batch2
+    src = modgen.DS_HEADER + "j = 5\nt = 7\nk = 9\n" + "".join(f"def c{i}(ds):\n    return ds.Select({t})\n" for i, (t, _) in enumerate(batch))
     try:
         m = modgen.load(src, "c06")
     except SyntaxError:
